@@ -151,6 +151,31 @@ def function_sweep(ck):
         if mo is not None and mo != want:
             ck.disagree('model calculate_new_target differs from the formula', rp)
             break
+    # id below target: the comparison itself, on pairs no search can reach (id equal to the target, one above, one below,
+    # differing in the first / last byte only)
+    for _ in range(200):
+        t = rng.choice(targets[3:])
+        for h, below in ((t - 1, True), (t, False), (t + 1, False), (0, True), (top, False),
+                         (t ^ 1, (t ^ 1) < t), (t ^ (1 << 255), (t ^ (1 << 255)) < t)):
+            if not 0 <= h <= top:
+                continue
+            try:
+                C.validate_proof_of_work(h.to_bytes(32, 'big'), t.to_bytes(32, 'big'))
+                okp = True
+            except C.ValidationError:
+                okp = False
+            except Exception as e:  # noqa
+                okp = 'raises %s' % type(e).__name__
+            ck.case(('pow-compare', h, t), kind='id-vs-target/%s' % ('equal' if h == t else 'below' if below else 'above'))
+            if okp is not below:
+                ck.violation('pow-comparison', 'validate_proof_of_work passes an id that is not below the target' if okp is True
+                             else 'validate_proof_of_work refuses an id below the target (%s)' % okp,
+                             {'function': 'validate_proof_of_work', 'id': h.to_bytes(32, 'big').hex(),
+                              'target': t.to_bytes(32, 'big').hex(), 'below': below})
+                break
+        else:
+            continue
+        break
     # chain sampling: which ancestor a hash selects
     cases = []
     for _ in range(300):
@@ -220,6 +245,15 @@ def replay(path):
             got = 'raises %r' % (e,)
         print('calculate_new_target ->', got, '; the rule prescribes', rp['expected'])
         return 1 if got != rp['expected'] else 0
+    if rp.get('function') == 'validate_proof_of_work':
+        from skepticoin import consensus as C
+        try:
+            C.validate_proof_of_work(bytes.fromhex(rp['id']), bytes.fromhex(rp['target']))
+            got = True
+        except C.ValidationError:
+            got = False
+        print('validate_proof_of_work(id, target) passes:', got, '; id below target:', rp['below'])
+        return 1 if got != rp['below'] else 0
     if rp.get('function') == 'select_block_height':
         from skepticoin import pow as P
         try:
